@@ -182,4 +182,6 @@ def check(ctx, R):
     R.run("C07.c", rule_c, ctx)
     R.run("C07.d", rule_d, ctx)
     R.run("C07.e", rule_e, ctx)
+    from . import c09_prims
+    R.run("C07.f", lambda R, c: c09_prims.rule_ds_running(R, c, "C07.f"), ctx)
     return {}
